@@ -46,10 +46,17 @@ def reqnew(name, N, wf, **kw):
              desc="request_new on a constructed evdns_base, every %sname <= %d bytes, symbolic randomize_case/random bits/EDNS/issue-now: query == requested name ignoring case, id, type, class IN" % ("encodable " if wf else "", N))
     d.update(kw); return d
 
+def lbl(n, mid, **kw):
+    d = dict(name="label%d_%s" % (n, "mid" if mid else "final"), harness="C36_query_build.c", entry="harness_label_limit",
+             defines=["C36_LBL=%d" % n, "C36_MID=%d" % mid], unwind=70, unwindset=["dnsname_to_labels.1:4"], timeout=600, mem_gb=4,
+             desc="dnsname_to_labels on a %s label of exactly %d symbolic non-dot octets: %s" % ("non-final" if mid else "final", n, "encoded and decodes back" if n <= 63 else "refused with -1"))
+    d.update(kw); return d
+LBL = [lbl(63, 0), lbl(64, 0), lbl(63, 1), lbl(64, 1)]
+
 def obligations(tier):
     if tier == "quick":
-        return [build("build_wf_N6", 6, True), build("build_all_N6", 6, False)]
+        return [build("build_wf_N6", 6, True), build("build_all_N6", 6, False)] + LBL
     # request_new: 7M variables / 7.5 GB / 6-11 min under load -> thorough tier only
     return [build("build_wf_N8", 8, True, timeout=1200), build("build_all_N8", 8, False, timeout=1200),
             reqnew("request_new_wf_N3", 3, True, timeout=2400, mem_gb=12), reqnew("request_new_all_N3", 3, False, timeout=2400, mem_gb=12),
-            longn("long_f0", 0, None, mem_gb=12, timeout=2400)]
+            longn("long_f0", 0, None, mem_gb=12, timeout=2400)] + LBL
